@@ -253,6 +253,50 @@ def explore [DecidableEq L] (p : List (Prim L)) : Nat → List (Head L) → List
 def pathSafe [DecidableEq L] (p : List (Prim L)) (fuel : Nat) : Bool :=
   closedUnder p (explore p fuel [startHead] [startHead])
 
+/-! ### path-level safety by a state annotation (one state per position)
+
+  `St` = what a head carries besides its position.  An annotated program gives every element the state in which a head
+  ARRIVES at it; `okStep R e st nxt` says that executing `e` in state `st` is safe, leaves the state `nxt` for the next
+  element, and that every label the step may jump to accepts the state the head then has (`R l st`: "every occurrence
+  of `Label l` is annotated with `st`").  `Lemmas/Closed.lean::annot_sound`: a closed program with such an annotation
+  starting in `([], [])` is safe on every execution. -/
+
+structure St (L : Type) where
+  h : List L      -- catch_pattern_failure_label, top first
+  s : List L      -- scope_uids
+  deriving DecidableEq, Repr
+
+abbrev APrim (L : Type) := Prim L × St L
+
+def okStep [DecidableEq L] (R : L → St L → Prop) (e : Prim L) (st nxt : St L) : Prop :=
+  match e with
+  | .label _ => nxt = st
+  | .goto l => R l st ∧ nxt = st
+  | .fork _ ls => ∀ l ∈ ls, R l st
+  | .abort => ∀ l rest, st.h = l :: rest → R l st
+  | .brk (some l) => R l st
+  | .cont (some l) => R l st
+  | .catchFail (some l) => nxt = ⟨l :: st.h, st.s⟩
+  | .catchFail none => ∀ x rest, st.h = x :: rest → nxt = ⟨rest, st.s⟩
+  | .specOp _ _ _ => nxt = st ∧ ∀ l rest, st.h = l :: rest → R l st
+  | .beginScope n => n ∉ st.s ∧ nxt = ⟨st.h, n :: st.s⟩
+  | .endScope n => nxt = ⟨st.h, st.s.erase n⟩
+  | .ret => True
+  | _ => nxt = st
+
+/-- the state in which the first element of `ap` is entered (`ex` if there is none) -/
+def entryOf (ap : List (APrim L)) (ex : St L) : St L :=
+  match ap with
+  | [] => ex
+  | (_, st) :: _ => st
+
+def Chain [DecidableEq L] (R : L → St L → Prop) : List (APrim L) → St L → Prop
+  | [], _ => True
+  | (e, st) :: r, ex => okStep R e st (entryOf r ex) ∧ Chain R r ex
+
+/-- every occurrence of `Label l` in `W` is annotated with `st` -/
+def LabSt (W : List (APrim L)) (l : L) (st : St L) : Prop := ∀ st', (Prim.label l, st') ∈ W → st' = st
+
 /-- the real expansion (labels shortened) of `while c: when Ev(): send ..  else: send ..` — witness program of the open
     finding `2.x:scope-reopened`; the harness compares it with what `expand_elements` produces on every run -/
 def whenElseInLoop : List (Prim String) :=
